@@ -451,24 +451,24 @@ func evaluateCollectionExpression(expression *grammar.CollectionExpression, datu
 			}
 
 			if v.Kind() == reflect.Map {
+				// The value alias is pushed before the key so that, once getValue
+				// has replaced the alias by the collection's path, only bindings of
+				// the enclosing scopes can apply to that path (the collection
+				// selector is written outside the braces).
 				key := keys[i]
-				if expression.NameBinding.Default != "" {
-					innerOpt = append(innerOpt, WithLocalVariable(expression.NameBinding.Default, nil, key.Interface()))
-				}
-				if expression.NameBinding.Index != "" {
-					innerOpt = append(innerOpt, WithLocalVariable(expression.NameBinding.Index, nil, key.Interface()))
-				}
 				if expression.NameBinding.Value != "" {
 					path := make([]string, 0, len(expression.Selector.Path)+1)
 					path = append(path, expression.Selector.Path...)
 					path = append(path, key.Interface().(string))
 					innerOpt = append(innerOpt, WithLocalVariable(expression.NameBinding.Value, path, nil))
 				}
-			} else {
-				if expression.NameBinding.Index != "" {
-					innerOpt = append(innerOpt, WithLocalVariable(expression.NameBinding.Index, nil, i))
+				if expression.NameBinding.Default != "" {
+					innerOpt = append(innerOpt, WithLocalVariable(expression.NameBinding.Default, nil, key.Interface()))
 				}
-
+				if expression.NameBinding.Index != "" {
+					innerOpt = append(innerOpt, WithLocalVariable(expression.NameBinding.Index, nil, key.Interface()))
+				}
+			} else {
 				pathValue := make([]string, 0, len(expression.Selector.Path)+1)
 				pathValue = append(pathValue, expression.Selector.Path...)
 				pathValue = append(pathValue, fmt.Sprintf("%d", i))
@@ -477,6 +477,11 @@ func evaluateCollectionExpression(expression *grammar.CollectionExpression, datu
 				}
 				if expression.NameBinding.Value != "" {
 					innerOpt = append(innerOpt, WithLocalVariable(expression.NameBinding.Value, pathValue, nil))
+				}
+
+				// see above: the index is pushed after the value alias
+				if expression.NameBinding.Index != "" {
+					innerOpt = append(innerOpt, WithLocalVariable(expression.NameBinding.Index, nil, i))
 				}
 			}
 
